@@ -853,3 +853,77 @@ def option_stream(ctx, cuqi, B, stated):
             elif not (o == "ok" or o.startswith("raises:")):
                 ctx.note(f"driver refused d1opts line at {desc}: {o}")
     B.add(lines, cb)
+
+
+# ----------------------------------------------------------------------------- caller-owned arrays mutated AFTER construction
+def caller_mutation_histories(ctx, cuqi):
+    """every array the caller hands to a constructor (phantom, PSF, exactSolution, data) — already of the requested size,
+    to be resized, as a flattened vector, in other memory layouts — is modified IN PLACE by the caller after the problem
+    was built (buffer re-use).  The problem must own what it hands out: exactSolution / exactData / data /
+    Miscellaneous PSF, the forward model and posterior.logd are unchanged, and exactData = forward(exactSolution) still holds."""
+    import harness.props.c17 as H
+    from cuqi.testproblem import Deconvolution1D, Deconvolution2D, Heat1D, Poisson1D, WangCubic
+    im3 = np.arange(1.0, 10).reshape(3, 3)
+    im4 = np.array([[1.0, 2, 0, 3], [0, 1, 4, 2], [2, 2, 1, 0], [3, 0, 1, 5]])
+    P2 = np.array([[0.0, 1, 0], [2, 3, 1], [0, 4, 0]])
+    big = np.zeros((8, 8)); big[::2, ::2] = im4
+    cases = [
+        ("Deconvolution2D", "right-size image", lambda a: Deconvolution2D(dim=4, PSF=a["PSF"], phantom=a["phantom"], BC="zero", noise_std=0.25), {"phantom": im4.copy(), "PSF": P2.copy()}, True),
+        ("Deconvolution2D", "right-size vector", lambda a: Deconvolution2D(dim=4, PSF=a["PSF"], phantom=a["phantom"], noise_std=0.25), {"phantom": im4.flatten(), "PSF": P2.copy()}, True),
+        ("Deconvolution2D", "image to be resized (3x3 -> 4)", lambda a: Deconvolution2D(dim=4, PSF=a["PSF"], phantom=a["phantom"], noise_std=0.25), {"phantom": im3.copy(), "PSF": P2.copy()}, True),
+        ("Deconvolution2D", "right-size image, Fortran order", lambda a: Deconvolution2D(dim=4, PSF=a["PSF"], phantom=a["phantom"], noise_std=0.25), {"phantom": np.asfortranarray(im4), "PSF": np.asfortranarray(P2)}, True),
+        ("Deconvolution2D", "right-size image, strided view", lambda a: Deconvolution2D(dim=4, PSF=a["PSF"], phantom=a["phantom"], noise_std=0.25), {"phantom": big[::2, ::2], "PSF": P2.copy()}, True),
+        ("Deconvolution2D", "named PSF, right-size image", lambda a: Deconvolution2D(dim=4, PSF="Gauss", PSF_size=3, phantom=a["phantom"], noise_type="scaledGaussian", noise_std=0.25), {"phantom": im4.copy() + 1}, True),
+        ("Deconvolution1D", "array phantom and PSF", lambda a: Deconvolution1D(dim=6, PSF=a["PSF"], phantom=a["phantom"], BC="zero", noise_std=0.25), {"phantom": np.array([1.0, 3, 0, -2, 5, 1]), "PSF": np.array([1.0, 2.0, 4.0])}, True),
+        ("Deconvolution1D", "strided phantom", lambda a: Deconvolution1D(dim=6, PSF=a["PSF"], phantom=a["phantom"], noise_std=0.25), {"phantom": np.arange(12.0)[::2], "PSF": np.array([1.0, 2.0, 1.0])}, True),
+        ("Deconvolution1D", "legacy, array phantom and PSF", lambda a: Deconvolution1D(dim=6, PSF=a["PSF"], phantom=a["phantom"], use_legacy=True, noise_std=0.25), {"phantom": np.array([1.0, 3, 0, -2, 5, 1]), "PSF": np.array([0.0, 0, 1, 2, 1, 0])}, True),
+        ("Poisson1D", "custom exactSolution", lambda a: Poisson1D(dim=5, SNR=50, exactSolution=a["exactSolution"]), {"exactSolution": np.array([1.0, 2, 1, 3, 2])}, False),
+        ("Heat1D", "custom exactSolution", lambda a: Heat1D(dim=5, max_time=0.02, SNR=50, exactSolution=a["exactSolution"]), {"exactSolution": np.array([0.0, 1, 0, 2, 1])}, False),
+        ("WangCubic", "data array", lambda a: WangCubic(noise_std=0.5, data=a["data"]), {"data": np.array([2.0])}, True),
+    ]
+    order = ["exactSolution", "exactData", "data", "Miscellaneous.PSF", "forward", "posterior.logd"]
+    for name, variant, build, args, is_par in cases:
+        desc = {"problem": name, "variant": variant, "check": "caller-mutation"}
+        ctx.case("caller-mutation", desc)
+        try:
+            with quiet():
+                with H.scripted(300 + len(variant)):
+                    tp = build(args)
+                n = tp.model.domain_dim
+                x = np.linspace(0.3, 0.9, n)
+                def snap():
+                    s = {k: np.array(v, copy=True) for k, v in _handed_out(tp).items()}
+                    s["forward"] = H.A1(tp.model.forward(x.copy())).copy()
+                    try:
+                        s["posterior.logd"] = np.array([float(np.asarray(tp.posterior.logd(x.copy())).ravel()[0])])
+                    except Exception:
+                        pass
+                    return s
+                s0 = snap()
+            kw = {} if is_par else {"is_par": False}
+            for arg, arr in args.items():
+                if not arr.flags.writeable:
+                    continue
+                arr *= 2.0                      # the caller re-uses his buffer
+                arr += 1.0
+                ctx.extra_cov.setdefault("caller_mutation", {}).setdefault(f"{name}:{arg}", 0)
+                ctx.extra_cov["caller_mutation"][f"{name}:{arg}"] += 1
+                with quiet():
+                    s1 = snap()
+                changed = [k for k in order if k in s0 and (k not in s1 or s0[k].shape != s1[k].shape or not np.allclose(s0[k], s1[k], rtol=1e-12, atol=0, equal_nan=True))]
+                if changed:
+                    d = {**desc, "caller array modified in place": arg, "changed": changed}
+                    ctx.fail(f"{name}:caller-mutation:{arg}:changes:{changed[0]}", d, [float(v) for v in s0[changed[0]].ravel()[:6]], [float(v) for v in s1[changed[0]].ravel()[:6]],
+                             f"after the caller modified his own {arg} array in place, {', '.join(changed)} of the constructed problem changed (the problem keeps a view of / reference to the caller's buffer)")
+                    if "exactSolution" in s1 and "exactData" in s1:
+                        with quiet():
+                            yf = H.A1(tp.model.forward(tp.exactSolution, **kw))
+                        if np.all(np.isfinite(yf)) and not H.vrel(H.A1(tp.exactData), yf, 1e-10):
+                            ctx.fail(f"{name}:caller-mutation:{arg}:exactData-not-forward-of-exactSolution", d, list(yf[:6]), list(H.A1(tp.exactData)[:6]),
+                                     "exactData is no longer model.forward(exactSolution) after the caller modified his own array")
+                    s0 = s1
+        except Exception as e:
+            import traceback
+            if "/cuqi/" not in traceback.format_exc():
+                raise
+            ctx.fail(f"{name}:caller-mutation:crash", desc, "the history runs", repr(e)[:160], "building the problem / modifying the caller's arrays raised")
